@@ -4,7 +4,7 @@
    C09 as a whole ("for every room in the envelope the pipeline returns the truth within 1 mm / 1 mrad, unlinked
    systems raise") depends on IPPE (SVD), the mirror vote, an eigen-decomposition and scipy.least_squares; none of
    these has a Gallina model here.  Shape of the full statement, over an arbitrary pipeline function: *)
-From CF Require Import Common.Bytes C09.Model C09.Proofs_matcher C09.Proofs_link C09.Proofs_est C09.Gen_Matcher C09.GenTie.
+From CF Require Import Common.Bytes C09.Model C09.Proofs_matcher C09.Proofs_link C09.Proofs_est C09.Gen_Matcher C09.GenTie C09.Vote C09.Proofs_vote.
 Open Scope Z_scope.
 
 Definition C09_full {Room Answer : Type} (in_envelope linked : Room -> Prop) (pipeline : Room -> option Answer)
@@ -129,3 +129,17 @@ Theorem C09_reference_station_partial : forall ids,
     exists r rest, angles_to_poses_keys ids = r :: rest /\ In r ids /\ forall y, In y ids -> r <= y.
 Proof. exact angles_to_poses_keys_spec. Qed.
 Print Assumptions C09_reference_station_partial.
+
+(* ---- REFUTED clause (finding F09b, root cause): the cluster vote _find_most_likely_positions does not isolate the
+        true relative station position.  Even when every sample's FIRST candidate is the exact truth (three samples
+        here), mirror candidates closer than accept_radius to a reference candidate are put into the same bucket, so
+        the mean of the winning bucket differs from the truth.  (Model C09/Vote.v, compared with the real
+        _find_most_likely_positions on every run; real-room witnesses: corpus/C09/f09b..f09d.) *)
+Theorem C09_mirror_vote_refuted :
+  exists (position_lists : list (list Z)) (truth : Z),
+    (length position_lists >= 3)%nat /\
+    (forall cands, In cands position_lists -> exists rest, cands = truth :: rest /\ length rest = 3%nat) /\
+    (exists p, In p (vote near_cm position_lists) /\ p <> truth) /\
+    zsum (vote near_cm position_lists) <> Z.of_nat (length (vote near_cm position_lists)) * truth.
+Proof. exact mirror_vote_refuted. Qed.
+Print Assumptions C09_mirror_vote_refuted.
